@@ -189,6 +189,12 @@ impl<OT: OtSender<Msg = Block> + Malicious> Receiver<OT> {
             let (lo, hi) = tj.clmul(&chi);
             t = xor_two_blocks(&t, &(lo, hi));
         }
+        #[cfg(feature = "__verif")]
+        {
+            // the random padding that hides the choice bits inside the check value
+            let mut pad = r[m / 8..].to_vec();
+            crate::verif::hook("kos_pad", crate::verif::Hook::Bytes(&mut pad));
+        }
         send_to(channel, p_to, "KOS_OT_x_t0_t1", &[(x, t.0, t.1)]).await?;
         Ok(ts)
     }
